@@ -23,6 +23,19 @@ Theorem decoy_perm :
 Proof. exact decoy_perm_l. Qed.
 Print Assumptions decoy_perm.
 
+(* hence a decoy is isobaric with its target: same length, same count of every residue, and the same
+   mass under the exact mass function of the digestion model (any weight table, any water mass) *)
+From MoPep Require Import Proofs.DecoyMassProofs.
+Theorem decoy_isobaric :
+  forall sample, (forall k l, Permutation (sample k l) l) ->
+  forall cfg targets o, run sample cfg targets = Ok o ->
+  Forall2 (fun t d => length (r_seq d) = length (r_seq t) /\
+                      (forall c, count_occ Z.eq_dec (r_seq d) c = count_occ Z.eq_dec (r_seq t) c) /\
+                      (forall wt water, mass4 wt water (r_seq d) = mass4 wt water (r_seq t)))
+          (o_targets o) (o_decoys o).
+Proof. exact decoy_isobaric_l. Qed.
+Print Assumptions decoy_isobaric.
+
 (* must_keep cfg s q : q is a position of s that was requested to stay: the N terminus
    (--keep-peptide-nterm), the C terminus, a residue listed in --non-shuffle-pattern, or the
    cleavage residue (site - 1) of a cleavage site of --enzyme (rule minus exception).
